@@ -5,6 +5,7 @@
 import CC.Drv.Common
 import CC.Drv.ChaCha
 import CC.Drv.Null
+import CC.Drv.Mem
 import CC.Drv.JH
 import CC.Drv.Groestl
 import CC.Drv.Simd
@@ -50,6 +51,7 @@ def step (ds : DS) (line : String) : DS × String :=
     let (s, out) := CC.Drv.Groestl.step ds.cfg ds.groestl toks
     ({ ds with groestl := s }, out)
   | "simd" :: _ | "intrin" :: _ => (ds, CC.Drv.Simd.step toks)
+  | "mem" :: _ => (ds, CC.Drv.Mem.step ds.cfg toks)
   | "null" :: _ => (ds, CC.Drv.Null.step ds.cfg toks)
   | "tf" :: _ | "tfl" :: _ => (ds, CC.Drv.Threefish.step toks)
   | "skein" :: _ =>
